@@ -46,6 +46,9 @@ type Op struct {
 	Raw     []byte
 	ConnGen int
 	Lost    bool // connection ended before a reply arrived
+	// wasBlocked: the command was seen sitting in its blocking select
+	wasBlocked bool
+	BlockedAt  time.Duration
 }
 
 type Violation struct {
@@ -267,6 +270,7 @@ func (w *World) run(mk func(*Plan) Checker) {
 			s.recordPanic(fmt.Sprint(v), string(stack))
 		},
 		Probe:        s.probe,
+		ClientBorn:   s.clientBorn,
 		PersistStage: w.persistStage,
 		Listen:       w.net.Listen,
 	})
@@ -435,6 +439,14 @@ func (w *World) loop() {
 				Msg: fmt.Sprintf("emulator goroutine %s of client %d panicked: %s\n%s", p.kind, p.id, p.value, trimStack(p.stack))}
 			w.stats.EndReason = "panic"
 			return
+		}
+		for _, c := range w.clients {
+			if len(c.pending) > 0 && !c.pending[0].wasBlocked && len(c.pending[0].Item.Args) > 0 && isBlockingCmd(string(c.pending[0].Item.Args[0])) {
+				if w.isBlockedInSelect(c.idx) {
+					c.pending[0].wasBlocked = true
+					c.pending[0].BlockedAt = w.Now()
+				}
+			}
 		}
 		if w.chk != nil {
 			if v := w.chk.OnStep(w); v != nil {
@@ -702,7 +714,7 @@ func (w *World) emuClientId(c *simClient) int64 {
 	if c.conn == nil {
 		return 0
 	}
-	return redisemu.SimClientIdByAddr(string(c.conn.remote))
+	return w.sched.clientIdOf(string(c.conn.remote))
 }
 
 func (w *World) consumed(c *simClient) {
@@ -1002,6 +1014,9 @@ func (w *World) harvest() {
 			op := c.pending[0]
 			c.pending = c.pending[1:]
 			op.Reply, op.Raw, op.Return, op.TReturn = v, raw, st, w.Now()
+			if op.wasBlocked && (v.K == KArray || v.K == KBulk) {
+				w.probe("blocked-then-served")
+			}
 			w.stats.Replies++
 			w.idleAdv = 0
 			w.logf("R c%d #%d %s", c.idx, op.Idx, clipS(v.String(), 60))
